@@ -25,7 +25,15 @@ func isWriteOp(op []string) bool {
 // failing. Verdict per position: the operation reports an error, or its result is identical to
 // the fault-free result; after a failed write the image must reopen to the old or the new state.
 // Result: "fl(ok,n=<positions>,inj=<faults injected>);<fault-free result>" or "fl(viol,...);<res>".
+//
+// "fault cold <op>": the operation runs on a tree object that was only constructed, not loaded
+// (nothing cached: first/latest version are discovered by the faulted operation itself).
 func (s *Sys) execFault(op []string) string {
+	cold := false
+	if op[0] == "cold" {
+		cold = true
+		op = op[1:]
+	}
 	pre := snapshotDB(s.db)
 	pending := append([][]string{}, s.pending...)
 	fast := s.fastNow
@@ -40,6 +48,13 @@ func (s *Sys) execFault(op []string) string {
 		wdb := &wrapDB{inner: db, h: h}
 		t := iavl.NewMutableTree(wdb, s.cfg.Cache, !fast, iavl.NewNopLogger(), s.options()...)
 		var err error
+		if cold {
+			sys := &Sys{cfg: s.cfg, db: wdb, base: db, tree: t, fastNow: fast, hooks: h}
+			h.failAt = failAt
+			r := sys.Exec(op)
+			h.failAt = nil
+			return r, h.calls, h.failed, sys, h.failKind
+		}
 		if baseVersion > 0 {
 			_, err = t.LoadVersion(baseVersion)
 		} else {
